@@ -27,9 +27,6 @@ Definition reenc_of (r : wres header) : option bytes :=
 Definition reenc_of_hb (r : wres (header * bytes)) : option bytes :=
   match r with WOk (h, _) => Some (encode_header h) | WErr _ => None end.
 
-Definition written_frames (fs : list frame) : list (wres (header * bytes)) :=
-  map (fun f => WOk (with_bodylen (f_hdr f) (N.of_nat (length (f_body f))), f_body f)) fs.
-
 (* ---- correspondence: the model run on the case's input vs what the code returned *)
 Definition C26_mismatch (c : c26_case) : bool :=
   match c with
@@ -43,8 +40,10 @@ Definition C26_mismatch (c : c26_case) : bool :=
       let o := read_frame stream max in
       negb (wres_eqb hb_eqb (ro_res o) res && (ro_consumed o =? consumed)
             && obytes_eqb (reenc_of_hb (ro_res o)) reenc
-            (* the model reaches the allocator only with a validated length *)
-            && match ro_alloc o with None => negb alloc_over | Some _ => true end)
+            && Bool.eqb (ro_beyond o) beyond
+            (* the heap grows by a body-sized amount only if the model reaches the
+               allocator with a body-sized (validated) length; pooled buffers may not grow it *)
+            && (negb alloc_over || ro_alloc_over o))
   | C26Write frames max res readback =>
       let w := write_frames frames max in
       negb (wres_eqb bytes_eqb w res
